@@ -129,14 +129,23 @@ def run(P, R):
         all(any(covers(c, m) for c in ap) for m in members)
     R.check(r3, ok, 'the chosen strategy is applied to the given conflicts', 'dispatch|apply', cc.loc(),
             'conciliate_conflicts does not call instance.conciliate(conflicts)')
-    me = P.unit('ConciliationState._master_enter')
-    c = [x for x in own_nodes(me.node) if isinstance(x, ast.Call) and call_text(x) == 'conciliate_conflicts']
-    ok = len(c) == 1 and [ast.unparse(a) for a in c[0].args] == ['self.supvisors',
-                                                                  'self.supvisors.options.conciliation_strategy',
-                                                                  'self.context.conflicts()']
-    R.check(r3, ok, 'the Master conciliates the current conflicts with the configured strategy', 'dispatch|enter',
-            me.loc(), 'ConciliationState._master_enter does not call conciliate_conflicts(supvisors, '
-            'options.conciliation_strategy, context.conflicts())')
+    # who conciliates: every call of conciliate_conflicts sits in a Master-only half of the CONCILIATION state
+    # (_master_enter / _master_next, which _MasterSlaveState only runs when the local instance is the Master)
+    CS = P.cls('ConciliationState')
+    sites = [(u, x) for u in P.all_units(with_closures=False) for x in own_nodes(u.node)
+             if isinstance(x, ast.Call) and call_text(x) == 'conciliate_conflicts' and u.qual != 'strategy:conciliate_conflicts'
+             and u.mod is CS.mod]      # (the XML-RPC and the Web UI conciliate on the user's request: C17)
+    me = CS.methods.get('_master_enter')
+    where = sorted({u.qual for u, x in sites})
+    ok = me is not None and any(u is me for u, x in sites) and all(
+        u.cls is CS and u.name in ('_master_enter', '_master_next') for u, x in sites) and all(
+        [closed_text(u, a) for a in x.args] == ['self.supvisors', 'self.supvisors.options.conciliation_strategy',
+                                                'self.context.conflicts()'] for u, x in sites)
+    R.check(r3, ok, 'the Master (and only the Master) conciliates the current conflicts with the configured strategy',
+            'dispatch|enter', (me or CS.methods.get('enter') or next(iter(CS.methods.values()))).loc(),
+            'conciliate_conflicts(supvisors, options.conciliation_strategy, context.conflicts()) is called from %s: it '
+            'must be called on entering CONCILIATION from the Master-only half ConciliationState._master_enter (and from '
+            'no half that a Slave also runs)' % where)
 
     # ---------------------------------------------------------------- R4
     r4 = R.rule('R4', 'effect summary per strategy', 'USER reaches no Starter/Stopper/failure-handler call; in the other '
